@@ -181,6 +181,12 @@ RoundTrip ==
                                                    !.data = Drop(m.data, IF m.offset = << >> THEN 0 ELSE m.offset[1])]]
               /\ d.rem = 0
 
+\* the direct (fast) big-step definition used by trace validation equals what the machine computes
+FastEqualsMachine ==
+  st.pc = "done" =>
+    LET f == EncodeInto(prefix, st.kind, st.val) IN
+    f.panic = st.panic /\ (~st.panic => f.buf = st.buf)
+
 \* C06 cross-check inside the specification: the machine's AVP output equals the direct definition
 AvpDirect == (st.pc = "done" /\ ~st.panic /\ st.kind = "avp") => Emitted = AvpRecord(st.val)
 
